@@ -13,7 +13,7 @@ deriving instance DecidableEq for Cfg
 /-- the documented literals; tests of `name()` on bytes; text files read without translation -/
 def good : Cfg :=
   { sepTest := 0, sepNul := 0, sepSpace := 32, rule2Sep := 0, rule2In := 32, rule2Split := 32,
-    envNul := 0, envEq := 61, rlNul := 0, deletedSuffix := Spec.deleted, deletedCut := 10,
+    stripOne := true, envNul := 0, envEq := 61, rlNul := 0, deletedSuffix := Spec.deleted, deletedCut := 10,
     nameMinLen := 15, nameTestOnBytes := true, textRaw := true,
     -- name(): a zombie's / unreadable cmdline keeps the kernel's name; exe(): only AccessDenied leads to the
     -- guess, only AccessDenied of the guess is swallowed, only an AccessDenied fallback is re-raised
